@@ -44,7 +44,9 @@ Definition oks (o : option (list key)) : list key := match o with Some l => l | 
    7 BaseStyle.format_bibliography (db, cites?, m)    8 PybtexEngine.format_from_string (db, cites, m, strict)
    9 BibTeXEngine.format_from_string (db, cites, m, strict)   10 unfiltered reading + selection (db, cites, m)
    11 / 12 / 13 = 5 / 9 / 8 through the multi-source entry points (parse_files, format_from_strings/files,
-   make_bibliography): the database is the concatenation of the sources, further arguments ignored *)
+   make_bibliography): the database is the concatenation of the sources, further arguments ignored
+   14 / 15 = 5 / 4 through the yaml / bibtexml readers and add_entries()/add_entry(); 16 / 17 / 18 = 6 / 9 / 8 on a
+   yaml / bibtexml database *)
 Definition dispatch (fn : Z) (a : sexp) : sexp :=
   let db := d_db (d_nth a 0) in
   let cs := d_keys (d_nth a 1) in
@@ -55,13 +57,13 @@ Definition dispatch (fn : Z) (a : sexp) : sexp :=
   | 2%Z => let ev := xref_events (bd_entries (read_db None db)) cs m in
            e_res (e_kr_c cs) (Ok (yields ev, reports ev))
   | 3%Z => e_res (e_kr_c cs) (Ok (add_extra (bd_entries (read_db None db)) cs m))
-  | 4%Z | 5%Z | 11%Z =>
+  | 4%Z | 5%Z | 11%Z | 14%Z | 15%Z =>
            let bd := read_db ocs db in
            e_res (fun bd => L [e_list (e_entry_c (oks ocs)) (bd_entries bd); e_list (e_report_c (oks ocs)) (bd_reports bd)]) (Ok bd)
-  | 6%Z => e_res (e_krk_c cs (bd_entries (read_db (Some cs) db))) (command_read db cs m (d_bool (d_nth a 3)))
-  | 9%Z | 12%Z => e_res (e_kra_c cs (bd_entries (read_db (Some cs) db))) (command_read db cs m (d_bool (d_nth a 3)))
+  | 6%Z | 16%Z => e_res (e_krk_c cs (bd_entries (read_db (Some cs) db))) (command_read db cs m (d_bool (d_nth a 3)))
+  | 9%Z | 12%Z | 17%Z => e_res (e_kra_c cs (bd_entries (read_db (Some cs) db))) (command_read db cs m (d_bool (d_nth a 3)))
   | 7%Z => e_res (e_kr_c (oks ocs)) (Ok (format_bibliography_raw (bd_entries (read_db None db)) ocs m))
-  | 8%Z | 13%Z => e_res (e_kr_c cs) (py_engine db cs m (d_bool (d_nth a 3)))
+  | 8%Z | 13%Z | 18%Z => e_res (e_kr_c cs) (py_engine db cs m (d_bool (d_nth a 3)))
   | 10%Z => e_res (e_kr_c cs) (Ok (select_unfiltered db cs m))
   | _ => L []
   end.
